@@ -178,6 +178,80 @@ def _mk_sqrt(has_bl, has_al, has_bu, has_au):
     return body
 
 
+def _mk_sqrt_mirror(case):
+    """a leg and its mirror image (lower/upper end parameters exchanged) get mirror-image spacing functions: s_mirror(i) = L - s(N - i), on the index
+    range the function is used for, INCLUDING the guard-cell range beyond a wall end (where the code continues the function by an exponential)"""
+    def body(env):
+        L, w, Nn, N = _params(env)
+        r = _region()
+        if case == "X.wall":
+            ax, bx, bt = env.real("a_xpoint", pos=True), env.real("b_xpoint", lo=0), env.real("b_target", pos=True)
+            kw_f = dict(b_lower=bx, a_lower=ax, b_upper=bt, a_upper=None)
+            kw_g = dict(b_lower=bt, a_lower=None, b_upper=bx, a_upper=ax)
+            classes = ("inside", "beyond_upper_end")
+        elif case == "wall.wall":
+            bl, bu = env.real("b_target_lower", pos=True), env.real("b_target_upper", pos=True)
+            kw_f = dict(b_lower=bl, b_upper=bu)
+            kw_g = dict(b_lower=bu, b_upper=bl)
+            classes = ("inside", "beyond_upper_end", "beyond_lower_end")
+        elif case == "X.X":
+            al, au, bl, bu = env.real("a_lower", pos=True), env.real("a_upper", pos=True), env.real("b_lower", lo=0), env.real("b_upper", lo=0)
+            kw_f = dict(b_lower=bl, a_lower=al, b_upper=bu, a_upper=au)
+            kw_g = dict(b_lower=bu, a_lower=au, b_upper=bl, a_upper=al)
+            classes = ("inside",)
+        else:  # only one end specified
+            al, bl = env.real("a_lower", lo=0), env.real("b_lower", pos=True)
+            kw_f = dict(b_lower=bl, a_lower=al)
+            kw_g = dict(b_upper=bl, a_upper=al)
+            classes = ("inside", "beyond_upper_end")
+        try:
+            f, _ = _call(env, r.getSqrtPoloidalDistanceFunc, L, N, Nn, **kw_f)
+        except ValueError:
+            f = None
+        try:
+            g, _ = _call(env, r.getSqrtPoloidalDistanceFunc, L, N, Nn, **kw_g)
+        except ValueError:
+            g = None
+        env.claim("a_leg_is_refused_iff_its_mirror_image_is", (f is None) == (g is None))
+        if f is None or g is None:
+            env.tag("refused")
+            return
+        env.witness("both_built")
+        which = classes[env.choose(len(classes))]
+        env.tag(which)
+        if which == "inside":
+            t = env.real("t_inside", lo=0.01, hi=0.99)
+            i = t * N
+        elif which == "beyond_upper_end":
+            i = N + env.real("offset_beyond_end", lo=0.01, hi=4)
+        else:
+            i = 0 * N - env.real("offset_beyond_end", lo=0.01, hi=4)
+        env.claim_eq("s_mirror(N-i)=L-s(i):" + which, _ev(env, g, N - i), L - _ev(env, f, i))
+    return body
+
+
+
+def ob_monotonic_mirror(env):
+    """monotonic spacing (convex case): exchanging d_lower and d_upper gives the mirror-image function, also beyond both ends (linear continuation)"""
+    L, w, Nn, N = _params(env)
+    dl, du = env.real("d_lower", pos=True), env.real("d_upper", pos=True)
+    concave_cond = L < 0.5 * (du + dl) * N / Nn - 1.0e-8 * L
+    env.assume(~concave_cond if env.mode == "sym" else not concave_cond, "convex case")
+    r = _region()
+    f, _ = _call(env, r.getMonotonicPoloidalDistanceFunc, L, N, Nn, d_lower=dl, d_upper=du)
+    g, _ = _call(env, r.getMonotonicPoloidalDistanceFunc, L, N, Nn, d_lower=du, d_upper=dl)
+    env.witness("both_built")
+    which = ("inside", "beyond_upper_end", "beyond_lower_end")[env.choose(3)]
+    env.tag(which)
+    if which == "inside":
+        i = env.real("t_inside", lo=0.01, hi=0.99) * N
+    elif which == "beyond_upper_end":
+        i = N + env.real("offset_beyond_end", lo=0.01, hi=4)
+    else:
+        i = 0 * N - env.real("offset_beyond_end", lo=0.01, hi=4)
+    env.claim_eq("s_mirror(N-i)=L-s(i):" + which, _ev(env, g, N - i), L - _ev(env, f, i))
+
+
 def _is_zero_on_path(env, x):
     r, _, _ = env._check(core.lift_real(x) != 0)
     return r == "unsat"
